@@ -348,7 +348,7 @@ func HarnessC14_Seq() {
 	}
 	limits := []int{0, 2}
 	if vTier() == 1 {
-		limits = []int{0, 1, 2, 4}
+		limits = []int{0, 2, 4} // (with limit 1 and byte-wise reads as well the depth-3 space did not finish in 25 minutes)
 	}
 	limit := limits[vChoice(len(limits))]
 	var frames []seqFrame
@@ -367,9 +367,8 @@ func HarnessC14_Seq() {
 	}
 	msgs, violAt, pongs, closedAt, limitAt := refReceive(frames, isServer, limit)
 	fc := newFakeConn(wire)
-	if vTier() == 1 && vChoice(2) == 1 {
-		fc.chunk = 1
-	}
+	// (byte-wise delivery is exercised by C14_Cut and C07_Websocket; here it doubled a space that
+	// already did not finish within the thorough budget)
 	c := newConn(fc, isServer, 0, 0)
 	c.SetReadLimit(int64(limit))
 	for _, want := range msgs {
